@@ -59,6 +59,14 @@ type acceptKind struct {
 	Opaque    []string      `json:"opaque"`
 	Steps     []acceptStep  `json:"steps"`
 	Exported  bool          `json:"exported"`
+	// fields whose type is a named integer type of package ast (BinaryOp, SetFunction, boolBinaryOp, …)
+	EnumFields []string `json:"enumFields"`
+	// node interfaces of package ast whose method set is contained in the method set of *Kind
+	Ifaces []string `json:"ifaces"`
+	// the constant GetType() returns ("" if it computes something)
+	GetType string `json:"getType"`
+	// Accept has a value receiver (the kind lives in interfaces by value and cannot be a nil pointer there)
+	ValueRecv bool `json:"valueRecv"`
 }
 
 type acceptFacts struct {
@@ -68,6 +76,9 @@ type acceptFacts struct {
 	ValidatorEmbedsDefault bool              `json:"validatorEmbedsDefault"`
 	DefaultVisitorNonEmpty []string          `json:"defaultVisitorNonEmpty"`
 	SourceHashes           map[string]string `json:"sourceHashes"`
+	EnumConsts             [][2]string       `json:"enumConsts"`
+	Api                    apiOut            `json:"api"`
+	Shape                  shapeOut          `json:"validatorShape"`
 	Note                   string            `json:"note,omitempty"`
 }
 
@@ -77,6 +88,12 @@ type acceptPkg struct {
 	ifaces  map[string]*ast.InterfaceType
 	methods map[string]map[string]*ast.FuncDecl
 	nodeIf  map[string]int // 0 unknown, 1 in progress, 2 yes, 3 no
+	// `type X int`
+	namedInts map[string]bool
+	// constants of the named integer types, in source order: name, value (iota blocks and explicit literals)
+	enumConsts [][2]string
+	enumTypes  []string // type of enumConsts[i]
+	files      []*ast.File
 }
 
 func parseDirNoTests(fset *token.FileSet, dir string) ([]*ast.File, error) {
@@ -125,15 +142,19 @@ func recvVarName(fd *ast.FuncDecl) string {
 
 func loadAcceptPkg(dir string) (*acceptPkg, error) {
 	p := &acceptPkg{fset: token.NewFileSet(), structs: map[string]*ast.StructType{}, ifaces: map[string]*ast.InterfaceType{},
-		methods: map[string]map[string]*ast.FuncDecl{}, nodeIf: map[string]int{}}
+		methods: map[string]map[string]*ast.FuncDecl{}, nodeIf: map[string]int{}, namedInts: map[string]bool{}}
 	files, err := parseDirNoTests(p.fset, dir)
 	if err != nil {
 		return nil, err
 	}
+	p.files = files
 	for _, f := range files {
 		for _, d := range f.Decls {
 			switch d := d.(type) {
 			case *ast.GenDecl:
+				if d.Tok == token.CONST {
+					p.constBlock(d)
+				}
 				if d.Tok != token.TYPE {
 					continue
 				}
@@ -144,6 +165,10 @@ func loadAcceptPkg(dir string) (*acceptPkg, error) {
 						p.structs[ts.Name.Name] = t
 					case *ast.InterfaceType:
 						p.ifaces[ts.Name.Name] = t
+					case *ast.Ident:
+						if t.Name == "int" || t.Name == "int32" || t.Name == "int64" || t.Name == "uint8" {
+							p.namedInts[ts.Name.Name] = true
+						}
 					}
 				}
 			case *ast.FuncDecl:
@@ -157,6 +182,33 @@ func loadAcceptPkg(dir string) (*acceptPkg, error) {
 		}
 	}
 	return p, nil
+}
+
+// constants of a typed const block: `X T = iota` followed by implicit repetitions, or `X T = <int literal>`
+func (p *acceptPkg) constBlock(d *ast.GenDecl) {
+	curType, iotaBased := "", false
+	for i, sp := range d.Specs {
+		vs, ok := sp.(*ast.ValueSpec)
+		if !ok {
+			continue
+		}
+		if vs.Type != nil || len(vs.Values) > 0 {
+			curType, iotaBased = "", false
+			if id, ok := vs.Type.(*ast.Ident); ok && len(vs.Values) == 1 && len(vs.Names) == 1 {
+				if isIdent(vs.Values[0], "iota") {
+					curType, iotaBased = id.Name, true
+				} else if bl, ok := vs.Values[0].(*ast.BasicLit); ok && bl.Kind == token.INT {
+					p.enumConsts = append(p.enumConsts, [2]string{vs.Names[0].Name, bl.Value})
+					p.enumTypes = append(p.enumTypes, id.Name)
+					continue
+				}
+			}
+		}
+		if iotaBased && len(vs.Names) == 1 {
+			p.enumConsts = append(p.enumConsts, [2]string{vs.Names[0].Name, fmt.Sprint(i)})
+			p.enumTypes = append(p.enumTypes, curType)
+		}
+	}
 }
 
 // isNodeIface: the interface's method set contains Accept (directly or through embedding)
@@ -284,6 +336,8 @@ func (p *acceptPkg) classify(t ast.Expr) (c *acceptChild, isStr bool, opaque boo
 		return nil, false, o || o2 || c != nil || c2 != nil
 	case *ast.InterfaceType:
 		return nil, false, true
+	case *ast.FuncType:
+		return nil, false, !funcTypeIsPlain(t)
 	case *ast.ChanType:
 		c, _, o := p.classify(t.Value)
 		return nil, false, o || c != nil
@@ -529,6 +583,7 @@ func (p *acceptPkg) analyseKind(name string) acceptKind {
 	}
 	sort.Strings(extra)
 	k.SymFields = append(k.SymFields, extra...)
+	p.typeFacts(&k)
 	return k
 }
 
@@ -552,19 +607,23 @@ func leanStrList(xs []string) string {
 
 func extractAccept(repo, gen, facts string) {
 	res := acceptFacts{Kinds: []acceptKind{}, NodeInterfaces: []string{}, ValidatorOverrides: []string{},
-		DefaultVisitorNonEmpty: []string{}, SourceHashes: map[string]string{}}
+		DefaultVisitorNonEmpty: []string{}, SourceHashes: map[string]string{}, EnumConsts: [][2]string{}}
+	res.Shape = shapeOut{IsPublic: "(.unknown \"extractor failure\")", VisitSymbol: "[.other \"extractor failure\"]",
+		Walk: "[.other \"extractor failure\"]", Getters: [][2]string{}, Fields: []string{}}
 	func() {
 		defer func() {
 			if r := recover(); r != nil {
 				res.Note = fmt.Sprintf("extractor failure: %v", r)
 				res.Kinds = append(res.Kinds, acceptKind{Name: "extractor-failure", Children: []acceptChild{}, StrFields: []string{},
-					SymFields: []string{}, Opaque: []string{}, Steps: []acceptStep{{Op: "unknown", Arg: res.Note}}})
+					SymFields: []string{}, Opaque: []string{}, Steps: []acceptStep{{Op: "unknown", Arg: res.Note}},
+					EnumFields: []string{}, Ifaces: []string{}})
 			}
 		}()
 		p, err := loadAcceptPkg(filepath.Join(repo, "ast"))
 		if err != nil {
 			panic(err)
 		}
+		res.Shape = extractValidatorShape(repo, p)
 		var names []string
 		for n := range p.structs {
 			if p.isKind(n) {
@@ -574,6 +633,13 @@ func extractAccept(repo, gen, facts string) {
 		sort.Strings(names)
 		for _, n := range names {
 			res.Kinds = append(res.Kinds, p.analyseKind(n))
+		}
+		res.EnumConsts = p.usedEnumConsts(res.Kinds)
+		res.Api = apiOut{SymbolVia: map[string]string{}, QueryApi: p.queryApi(), AliasSites: p.aliasSites(p.files)}
+		for _, k := range res.Kinds {
+			if v := p.symbolVia(k.Name); v != "" {
+				res.Api.SymbolVia[k.Name] = v
+			}
 		}
 		for n := range p.ifaces {
 			if p.isNodeIface(n) {
@@ -652,8 +718,10 @@ func extractAccept(repo, gen, facts string) {
 			}
 			fmt.Fprintf(&b, "⟨%s, %v, %s⟩", leanStr(c.Field), c.Many, st)
 		}
-		fmt.Fprintf(&b, "],\n    strFields := %s, symFields := %s, opaqueFields := %s,\n    steps := [", leanStrList(k.StrFields),
+		fmt.Fprintf(&b, "],\n    strFields := %s, symFields := %s, opaqueFields := %s,\n", leanStrList(k.StrFields),
 			leanStrList(k.SymFields), leanStrList(k.Opaque))
+		fmt.Fprintf(&b, "    enumFields := %s, ifaces := %s, getType := %s, valueRecv := %v,\n    steps := [", leanStrList(k.EnumFields),
+			leanStrList(k.Ifaces), leanStr(k.GetType), k.ValueRecv)
 		for j, s := range k.Steps {
 			if j > 0 {
 				b.WriteString(", ")
@@ -677,6 +745,18 @@ func extractAccept(repo, gen, facts string) {
 	fmt.Fprintf(&b, "def validatorEmbedsDefault : Bool := %v\n", res.ValidatorEmbedsDefault)
 	fmt.Fprintf(&b, "/-- DefaultVisitor methods whose body is not empty -/\n")
 	fmt.Fprintf(&b, "def defaultVisitorNonEmpty : List String := %s\n", leanStrList(res.DefaultVisitorNonEmpty))
+	b.WriteString("\n/-- constants of the enumeration types that occur as fields of node kinds (BinaryOp, SetFunction, boolBinaryOp) -/\n")
+	b.WriteString("def enumConsts : List (String × Nat) := [")
+	for i, c := range res.EnumConsts {
+		if i > 0 {
+			b.WriteString(", ")
+		}
+		fmt.Fprintf(&b, "(%s, %s)", leanStr(c[0]), c[1])
+	}
+	b.WriteString("]\n\n")
+	b.WriteString(res.Shape.lean())
+	b.WriteString("\n")
+	b.WriteString(res.Api.lean(res.Kinds))
 	b.WriteString("\nend StorageModel.Generated\n")
 	writeIfChanged(filepath.Join(gen, "AcceptTable.lean"), b.String())
 }
